@@ -79,8 +79,10 @@ PROPS["C06"] = dict(
           Job("bdd", 1, 1, size=22, size_thorough=23, extra=("exh",), relevant=heads(*OPS, "dump", "wfcheck", "classes", "alltt"),
               nontrivial=lambda st: True, label="exhaustive-2-variables", timeout=1800),
           Job("bdd", 0, 1, size=33, extra=("exh",), relevant=heads(*OPS, "dump", "wfcheck", "classes", "alltt"),
-              nontrivial=lambda st: True, label="exhaustive-3-variables", timeout=3600)],
-    rule="EXHAUSTIVE small scope (every sequence of 2 (thorough: 3) operations over 2 variables and, thorough, of 3 operations over 3 variables, operands = any earlier result or terminal); "
+              nontrivial=lambda st: True, label="exhaustive-3-variables", timeout=3600),
+          Job("bdd", 300, 8000, extra=("sparse",), relevant=heads(*OPS, "dump", "wfcheck", "alltt"), nontrivial=nt_bdd, label="sparse-variable-indices")],
+    rule="SPARSE variable indices (2-7 variables with indices around 32, 64, 128, 256, 65 536, 2^31 and 2^32, created in random order; complete truth-table oracle); "
+         "EXHAUSTIVE small scope (every sequence of 2 (thorough: 3) operations over 2 variables and, thorough, of 3 operations over 3 variables, operands = any earlier result or terminal); "
          "random operation sequences (3-45 ops over 2-6 variables: var/const/not/and/or/imp/iff/xor/restrict on earlier results) on one shared Bdd; "
          "after each sequence the real node table is dumped and checked by the verified wfCheck, handle equality of ALL issued handles is compared with "
          "truth-table equality, and the table is compared index by index with the model's; non-trivial = distinct sequence creating >= 3 inner nodes",
@@ -101,7 +103,8 @@ PROPS["C07"] = dict(
           Job("bdd", 1, 1, size=23, extra=("exh",), relevant=heads(*OPS, "alltt", "dump"),
               nontrivial=lambda st: True, label="exhaustive-2-variables", timeout=1800),
           Job("bdd", 0, 1, size=33, extra=("exh",), relevant=heads(*OPS, "alltt", "dump"),
-              nontrivial=lambda st: True, label="exhaustive-3-variables", timeout=3600)],
+              nontrivial=lambda st: True, label="exhaustive-3-variables", timeout=3600),
+          Job("bdd", 300, 8000, extra=("sparse",), relevant=heads(*OPS, "alltt", "dump"), nontrivial=nt_bdd, label="sparse-variable-indices")],
     rule="same sequences as C06; after every operation the truth table obtained by walking the REAL node table from the returned handle is compared with the "
          "specification's truth table (TT layer, independent of diagrams) and the handle with the proved model's handle; at the end every earlier handle is re-evaluated; "
          "non-trivial = distinct sequence creating >= 3 inner nodes",
@@ -122,6 +125,7 @@ PROPS["C13"] = dict(
     jobs=[Job("bdd", 1000, 6000, size=6, size_thorough=7, fsets=("default", "none", "all"), fsets_thorough=ALL12,
               relevant=heads("q", "cubes", "cubecheck", "impact"), nontrivial=nt_bdd),
           Job("bdd", 40, 600, size=64, extra=("deepcount",), fsets=("default", "none"), relevant=heads("qdeep"), nontrivial=lambda st: True, label="deep-diagrams"),
+          Job("bdd", 200, 5000, extra=("sparse",), fsets=("default", "none"), relevant=heads("q"), nontrivial=nt_bdd, label="sparse-variable-indices"),
           Job("persist", 400, 10000, size=5, size_thorough=6, relevant=heads("pq", "pmemocheck"),
               nontrivial=lambda st: int(st.get("trips", 0)) >= 1 and int(st.get("nodes", 0)) >= 3, label="after-import")],
     rule="operation sequences as for C06; for EVERY issued handle: paths/models (naive and memoised), depth, dependencies, more_models; path cubes for random (goal, goal variable); "
